@@ -55,8 +55,7 @@ simple!(Probe, |context, args| {
         })
         .collect();
     world::probe_event(tag, status, depth, jobs, extra);
-    // leave $? as it was so that probes are transparent to the program
-    Ok(ExecutionResult::new(status))
+    Ok(ExecutionResult::success())
 });
 
 // simseq N [TAG] [PADLEN]: N lines "TAG<i>" followed by PADLEN 'x' characters.
